@@ -19,11 +19,12 @@ CLS = 'BitSerializer::FieldsCountVisitor'
 
 
 class CounterModel(LinModel):
-    def __init__(self):
+    def __init__(self, field='Size'):
         self.k = []
+        self.field = 'this.' + field
 
     def initial_store(self, it, key):
-        if key == 'this.Size':
+        if key == self.field:
             return S0
         return TOP
 
@@ -57,9 +58,9 @@ class CounterModel(LinModel):
         if name == 'Count' and cls == CLS:
             k = self.fresh(it, 'K', 0, None)
             if self.on_this(it, fr, obj):
-                cur = Lin.of(it.read_key(fr, 'this.Size'))
+                cur = Lin.of(it.read_key(fr, self.field))
                 new = cur + k if cur is not None else TOP
-                it.write_key(fr, 'this.Size', new)
+                it.write_key(fr, self.field, new)
                 it.act('COUNTED', 'this')
                 return new
             it.act('COUNTED', 'other')
@@ -67,11 +68,13 @@ class CounterModel(LinModel):
         if name in ('Serialize', 'SerializeObject') and (self.passes_this(fr, args)):
             # the user's serialization code runs on this visitor: it counts that class' entries
             k = self.fresh(it, 'K', 0, None)
-            cur = Lin.of(it.read_key(fr, 'this.Size'))
-            it.write_key(fr, 'this.Size', cur + k if cur is not None else TOP)
+            cur = Lin.of(it.read_key(fr, self.field))
+            it.write_key(fr, self.field, cur + k if cur is not None else TOP)
             self.k.append(k)
             it.act('USER', name)
             return TOP
+        if cls == CLS and callee['id'] in it.prog.funcs and depth < it.max_depth:
+            return NotImplemented       # a private helper of the visitor (VisitFields, Increment(size_t&)): interpreted in place
         for a in args:
             it.ev(fr, a, depth)
         if obj is not None:
@@ -87,6 +90,20 @@ def check(prog, rep, rule):
     rep.rule(rule, 'FieldsCountVisitor arithmetic: operator<<(value) adds exactly 1, Count(obj) and operator<<(BaseObject) add exactly the entries '
                    'of that class once (Size\' = Size + K), Count returns the total - the map header equals the number of entries written', floor=3)
     seen = {}
+    # the counter: the integral data member of the visitor (its other member is the reference to the archive)
+    from bsv.dtab import INT_TYPES, base_type
+    counter = None
+    for k, rec in prog.records.items():
+        if rec.get('q') == CLS:
+            ints = [fd['n'] for fd in rec.get('fields', []) if base_type(rec['_tu']['types'][fd['t']] if '_tu' in rec else '') in INT_TYPES] if '_tu' in rec else []
+            if not ints:
+                tu = next((g.tu for g in prog.funcs.values() if strip_targs(g.cls or '') == CLS), None)
+                ints = [fd['n'] for fd in rec.get('fields', []) if tu is not None and base_type(tu['types'][fd['t']]) in INT_TYPES]
+            if len(ints) == 1:
+                counter = ints[0]
+                break
+    if counter is None:
+        raise AnalysisBroken('%s: the integral counter member of FieldsCountVisitor not identified' % rule)
     for f in sorted(prog.funcs.values(), key=lambda g: g.id):
         if f.body is None or strip_targs(f.cls or '') != CLS:
             continue
@@ -94,8 +111,8 @@ def check(prog, rep, rule):
             continue
         is_base = f.name == 'operator<<' and f.params and 'BaseObject<' in f.type(f.params[0])
         kind = 'Count' if f.name == 'Count' else ('operator<<(BaseObject)' if is_base else 'operator<<(value)')
-        model = CounterModel()
-        it = CounterInterp(prog, model, max_depth=0, max_paths=50)
+        model = CounterModel(counter)
+        it = CounterInterp(prog, model, max_depth=3, max_paths=50)
 
         def init(it_, fr):
             it_.n_fresh = 0
@@ -109,7 +126,7 @@ def check(prog, rep, rule):
                 continue
             n_paths += 1
             cons = list(p.facts or [])
-            fin = Lin.of(p.store.get('this.Size', S0)) if hasattr(p, 'store') else None
+            fin = Lin.of(p.store.get('this.' + counter, S0)) if hasattr(p, 'store') else None
             if fin is None:
                 problems.append('the final value of the counter is not a linear form of its initial value')
                 continue
